@@ -112,6 +112,16 @@ pub fn families() -> Vec<(String, Vec<Spend>)> {
         for _ in 0..n { v.push(recv.clone()); }
         out.push((format!("messages-{n}"), one(v)));
     }
+    // unbalanced messages: sends and receives of one message that do not pair up are refused, whatever the size of the
+    // imbalance (in particular a multiple of 256 or of 65536 / 256)
+    for (ns, nr) in [(1usize, 0usize), (0, 1), (128, 0), (255, 0), (256, 0), (0, 256), (257, 1), (1, 257), (300, 44), (512, 0), (0, 512), (384, 128)] {
+        let send = c(66, vec![vec![0b01_0010], b"hello".to_vec(), vec![2u8; 32]]);
+        let recv = c(67, vec![vec![0b01_0010], b"hello".to_vec(), vec![2u8; 32]]);
+        let mut v = vec![];
+        for _ in 0..ns { v.push(send.clone()); }
+        for _ in 0..nr { v.push(recv.clone()); }
+        out.push((format!("messages-unbalanced-{ns}-{nr}"), one(v)));
+    }
     // announcement-class conditions around the 1024 limit
     for n in [1usize, 1000, 1023, 1024, 1025, 2000] {
         let v: Vec<Cond> = (0..n).map(|i| c(60, vec![(i as u32 + 0x0100_0000).to_be_bytes().to_vec()])).collect();
@@ -406,6 +416,10 @@ fn expected_verdicts() -> Vec<(String, &'static str, &'static str, bool)> {
     // a relative or birth condition on a coin created in the same bundle is refused whether or not the spend also asserts
     // that it is ephemeral, under every flag set
     for (name, _) in families() {
+        if name.starts_with("messages-unbalanced-") {
+            dynamic.push((name.clone(), "none", "", false));
+            dynamic.push((name.clone(), "cost-conditions", "all-three", false));
+        }
         if name.starts_with("ephemeral-asserted-and-") {
             dynamic.push((name.clone(), "none", "", false));
             dynamic.push((name.clone(), "cost-conditions", "all-three", false));
